@@ -186,6 +186,14 @@ def SpecAccount (env : Env) (d : Nat) (root : Name) (us : List URI) : Prop :=
 def SpecMethod (env : Env) (d : Nat) (rule : Option Rule) (us : List URI) : Prop :=
   Sat rule (verified env d us)
 
+instance (env : Env) (d : Nat) (root : Name) (us : List URI) : Decidable (SpecAccount env d root us) := by
+  unfold SpecAccount
+  split <;> infer_instance
+
+instance (env : Env) (d : Nat) (rule : Option Rule) (us : List URI) : Decidable (SpecMethod env d rule us) := by
+  unfold SpecMethod
+  infer_instance
+
 /-! ### decision logic of `verifyRWSetPermission` -/
 
 /-- one element of the write set (`tx.TxOutputsExt`), by bucket -/
